@@ -2136,12 +2136,21 @@ class VM:
 
                     result_parts = []
                     last_end = 0
+                    # A sticky regex matches only at the current position; without
+                    # the global flag that position is lastIndex
+                    sticky = regex_internal._sticky
                     pos = 0
+                    if sticky and not is_global:
+                        pos = clamp_index(to_integer_or_infinity(pattern.lastIndex), len(s) + 1)
+                    matched_end = None
 
                     while pos <= len(s):
                         # Create fresh regex VM for each search
                         vm_regex = regex_internal._create_vm()
-                        match_result = vm_regex.search(s, pos)
+                        if sticky:
+                            match_result = vm_regex.match(s, pos)
+                        else:
+                            match_result = vm_regex.search(s, pos)
                         if match_result is None:
                             break
 
@@ -2154,9 +2163,17 @@ class VM:
                         match_len = len(match_result[0]) if match_result[0] else 0
                         last_end = match_result.index + match_len
                         pos = last_end if match_len > 0 else match_result.index + 1
+                        matched_end = last_end
 
                         if not is_global:
                             break
+
+                    # lastIndex as RegExp.prototype[@@replace] leaves it: 0 after a
+                    # global replace, the end of the match (or 0) for a sticky one
+                    if is_global:
+                        pattern.lastIndex = 0
+                    elif sticky:
+                        pattern.lastIndex = matched_end or 0
 
                     # Add remainder after last match
                     result_parts.append(s[last_end:])
@@ -2232,10 +2249,14 @@ class VM:
                     # Global flag: return all matches without groups
                     matches = []
                     pos = 0
+                    sticky = regex_internal._sticky
                     while pos <= len(s):
                         # Create fresh regex VM for each search
                         vm_regex = regex_internal._create_vm()
-                        result = vm_regex.search(s, pos)
+                        if sticky:
+                            result = vm_regex.match(s, pos)
+                        else:
+                            result = vm_regex.search(s, pos)
                         if result is None:
                             break
                         matches.append(result[0])
@@ -2247,11 +2268,16 @@ class VM:
                             else result.index + 1
                         )
 
+                    pattern.lastIndex = 0
                     if not matches:
                         return NULL
                     arr = JSArray()
                     arr._elements = list(matches)
                     return arr
+                elif isinstance(pattern, JSRegExp):
+                    # Non-global: exactly what exec returns (a sticky regex
+                    # starts at lastIndex and advances it)
+                    return pattern.exec(s)
                 else:
                     # Non-global: return first match with groups
                     vm_regex = regex_internal._create_vm()
@@ -2294,7 +2320,11 @@ class VM:
 
             try:
                 vm_regex = regex_internal._create_vm()
-                result = vm_regex.search(s, 0)
+                if regex_internal._sticky:
+                    # A sticky regex can only match at index 0; lastIndex is left alone
+                    result = vm_regex.match(s, 0)
+                else:
+                    result = vm_regex.search(s, 0)
                 return result.index if result else -1
             except RegexTimeoutError:
                 raise TimeLimitError("Regex execution timeout")
